@@ -541,15 +541,15 @@ class pdb2sql(pdb2sql_base):
                         rows = sorted(rows)
 
                         # get the data of these rows in the order of the table
-                        rows_kwargs = {}
-                        if 'model' in kwargs:
-                            rows_kwargs['model'] = kwargs['model']
                         data = []
                         for i in range(0, len(rows), chunck_size):
-                            data += self.get(
-                                columns, tablename=tablename,
-                                rowID=rows[i:i + chunck_size], **rows_kwargs)
-                        return data
+                            rowid = [r + 1 for r in rows[i:i + chunck_size]]
+                            query = 'SELECT {an} FROM {tablename} WHERE rowID in ({qm})'.format(
+                                an=columns, tablename=tablename,
+                                qm=','.join('?' * len(rowid)))
+                            data += [list(row)
+                                     for row in self.c.execute(query, rowid)]
+                        return self._format_get_output(data, columns)
 
                     # otherwise we just go on
                     else:
@@ -598,6 +598,11 @@ class pdb2sql(pdb2sql_base):
             # query the sql database and return the answer in a list
             data = [list(row) for row in self.c.execute(query, vals)]
 
+        return self._format_get_output(data, columns)
+
+    @staticmethod
+    def _format_get_output(data, columns):
+        """Postprocess the rows of a SQL query of the get method."""
         # empty data
         if len(data) == 0:
             # warnings.warn('SQL query get an empty')
